@@ -108,10 +108,11 @@ def main() -> int:
         if i is None or not (name.startswith("Inv_") or name.startswith("Count_")):
             raise core.MachineryFailure("cannot read TLC violation: %r" % v)
         idx = int(i) - 1
-        rule, _, outcome = name.split("_", 1)[1].partition("__")
+        parts = name.split("_", 1)[1].split("__")
+        rule, outcome, expl = parts[0], parts[1], (parts[2] if len(parts) > 2 else "")
         broken_by.setdefault(idx, set()).add(rule)
         if name.startswith("Inv_"):
-            reports.append((idx, rule, outcome))
+            reports.append((idx, rule, outcome, expl))
     n_obs = len(obs)
     n_breaking = len(broken_by)
     n_breaking_rejected = sum(1 for i in broken_by if obs[i]["outcome"] == "rejected")
@@ -120,9 +121,9 @@ def main() -> int:
     rules_broken = sorted(set().union(*broken_by.values())) if broken_by else []
     if not replay and res.distinct != n_obs * 12:
         raise core.MachineryFailure("RulesTrace explored %d states, expected %d" % (res.distinct, n_obs * 12))
-    for idx, rule, outcome in reports:
+    for idx, rule, outcome, expl in reports:
         r, e = obs[idx], entries[idx]
-        key = {"rule": rule, "outcome": outcome}
+        key = {"rule": rule, "outcome": outcome, "explained_by": expl}
         where = ""
         if r["outcome"] == "exception":
             exc = json.loads(r["exc"])
